@@ -20,7 +20,7 @@ Section C.
   Notation cstate := (cstate Param Series LossV).
   Notation one_batch := (one_batch Param Series LossV model lossf loss_leb rounds0 propose draws agent_actions plan).
   Notation batches := (batches Param Series LossV model lossf loss_leb rounds0 propose draws agent_actions plan).
-  Notation calibrate := (calibrate Param Series LossV model lossf loss_leb rounds0 propose draws agent_actions plan).
+  Notation calibrate_pos := (calibrate_pos Param Series LossV model lossf loss_leb rounds0 propose draws agent_actions plan).
   Notation step := (step Param Series LossV model lossf loss_leb rounds0 propose draws agent_actions plan).
   Notation run := (run Param Series LossV model lossf loss_leb rounds0 propose draws agent_actions plan).
 
@@ -78,9 +78,9 @@ Section C.
     destruct (one_batch s) as [s1 o1] eqn:E1. pose proof (one_batch_consec _ _ _ Hi E1) as Hi1.
     destruct o1; try (injection H as <- <-; auto). eapply IH; eauto. Qed.
 
-  Lemma calibrate_consec n s s' e r : ConsecS s -> calibrate n s = (s', e, r) -> ConsecS s'.
+  Lemma calibrate_pos_consec n s s' e r : ConsecS s -> calibrate_pos n s = (s', e, r) -> ConsecS s'.
   Proof.
-    intros [Hl Hd] H. unfold Calibrator.calibrate in H.
+    intros [Hl Hd] H. unfold Calibrator.calibrate_pos in H.
     set (c1 := if Nat.eqb _ 0 then _ else _) in H.
     assert (Hc1 : Consec c1).
     { unfold c1. destruct (Nat.eqb _ 0); [|exact Hl]. destruct Hl as [Hlab Hpos]. constructor; [exact Hlab|].
@@ -93,6 +93,13 @@ Section C.
     destruct o1; destruct (end_session _ _) as [sc'|e1] eqn:Hes; injection H as <- <- <-; (split; [|exact Hd1]); try exact Hl1;
       destruct Hl1 as [Hlab Hpos]; (constructor; [exact Hlab|]); cbn; now rewrite (end_session_samplers _ _ _ Hes).
   Qed.
+
+  Notation calibrate := (calibrate Param Series LossV model lossf loss_leb rounds0 propose draws agent_actions plan).
+  Lemma calibrate_consec n s s' e r : ConsecS s -> calibrate n s = (s', e, r) -> ConsecS s'.
+  Proof. intros Hi H. rewrite (calibrate_unfold Param Series LossV) in H. destruct n; [|eapply calibrate_pos_consec; eauto].
+    destruct (calibrate_pos 0 s) as [[s1 e1] r1] eqn:E. pose proof (calibrate_pos_consec _ _ _ _ _ Hi E) as [Hl Hd].
+    apply (zero_ckpt_cases Param Series LossV) in H. destruct H as [(-> & _ & _) | [(_ & Hlive & Hdisk & _) | (_ & -> & _)]]; [split; auto | | split; auto].
+    split; rewrite ?Hlive; auto. intros d Hd'. rewrite Hdisk in Hd'. injection Hd' as <-. exact Hl. Qed.
 
   Definition op_pos (o : op) : Prop :=
     match o with OSetSamplers l | OSetScheduler l => pos_sizes l | _ => True end.
